@@ -86,7 +86,7 @@ def _merge_same_type(prop1: Property, prop2: Property) -> Property | None | Prop
         inner_property = merge_properties(prop1.inner_property, prop2.inner_property)  # type: ignore
         if isinstance(inner_property, PropertyError):
             return PropertyError(detail=f"can't merge list properties: {inner_property.detail}")
-        prop1.inner_property = inner_property
+        prop1 = evolve(prop1, inner_property=inner_property)
 
     if isinstance(prop1, ConstProperty) and isinstance(prop2, ConstProperty) and prop1.value != prop2.value:
         return PropertyError(detail=f"can't merge const {prop1.value.python_code} with const {prop2.value.python_code}")
